@@ -1,6 +1,7 @@
 package rules
 
 import (
+	"go/token"
 	"fmt"
 	"go/types"
 	"strings"
@@ -226,6 +227,29 @@ func c10expConf(c *Ctx, fn *ssa.Function, sink ssa.Instruction, levelTerm string
 			ph = x
 		}
 	})
+	if ph == nil {
+		// whatever the variable is called: the depth added to the block height in the must-hold
+		// comparison with the head at the sink
+		for _, f := range facts.At(sink, nil) {
+			x, _, y, ok := cmpOf(f)
+			if !ok {
+				continue
+			}
+			for _, side := range []ssa.Value{x, y} {
+				if add, ok := strip(side).(*ssa.BinOp); ok && add.Op == token.ADD {
+					for _, opnd := range []ssa.Value{add.X, add.Y} {
+						if cand, ok := opnd.(*ssa.Phi); ok && ph == nil {
+							for _, e := range cand.Edges {
+								if k0, isK := constInt(e); isK && k0 == 0 {
+									ph = cand
+								}
+							}
+						}
+					}
+				}
+			}
+		}
+	}
 	key := R.Key(rule, shortFn(fn), "phi:expectedConfirmations")
 	if ph == nil {
 		R.Fail(rule, key, c.rel(p.Pos(sink.Pos())), "expectedConfirmations", "undecided: value is not a phi of {consistency level, 0}")
@@ -263,6 +287,27 @@ func c10expConf(c *Ctx, fn *ssa.Function, sink ssa.Instruction, levelTerm string
 					if a == want {
 						neg = true
 					}
+				}
+			}
+			if !neg {
+				// the zero may be reached through several tests (`if !wait || safe { return 0 }`):
+				// it is fine when, with every test that falsifies a condition cut, the edge can no
+				// longer be taken
+				negs := map[string]bool{}
+				for _, cnd := range conds {
+					if strings.HasPrefix(cnd, "!") {
+						negs[strings.TrimPrefix(cnd, "!")] = true
+					} else {
+						negs["!"+cnd] = true
+					}
+				}
+				es, _ := edgesWhere(fn, func(a string) bool { return negs[a] })
+				cuts := facts.Cuts{}
+				for _, e := range es {
+					cuts[e] = true
+				}
+				if len(es) > 0 && (!facts.Reachable(pred, cuts) || cuts[facts.Edge{B: pred.Index, K: ei}]) {
+					neg = true
 				}
 			}
 			if !neg {
